@@ -287,6 +287,55 @@ theorem C19_idempotent (db : DB) (vs : List Version) (fails : Nat → Bool) (sf 
     have hv := (C19_ok_version db.version vs fails sf he).1
     simp only [upgradeInTx, he, hv, C19_equal_noop, applied, List.append_nil]
 
+/-- Several components upgraded inside one database transaction (as `wallet.Open` does for the transaction
+manager and the address manager): if any of them fails or refuses, none of them is modified. -/
+theorem C19_many_fail_in_tx (comps : List (DB × List Version)) (fails : Nat → Bool)
+    (h : (upgradeManyInTx comps fails).2 ≠ none) :
+    (upgradeManyInTx comps fails).1 = comps.map (·.1) := by
+  unfold upgradeManyInTx at h ⊢
+  rcases hr : upgradeManyLoop fails comps with ⟨dbs, e⟩
+  cases e with
+  | none => simp [hr] at h
+  | some e => simp
+
+theorem upgradeManyLoop_ok (fails : Nat → Bool) (comps : List (DB × List Version))
+    (h : (upgradeManyLoop fails comps).2 = none) :
+    (upgradeManyLoop fails comps).1 = comps.map (fun c => (upgradeInTx c.1 c.2 fails false).1) ∧
+    ∀ c ∈ comps, (upgradeInTx c.1 c.2 fails false).2 = none := by
+  induction comps with
+  | nil => simp [upgradeManyLoop]
+  | cons c rest ih =>
+    obtain ⟨db, vs⟩ := c
+    unfold upgradeManyLoop at h ⊢
+    cases he : (upgrade (some db.version) vs fails false).err with
+    | some e => simp [he] at h
+    | none =>
+      simp only [he] at h ⊢
+      have ih' := ih h
+      refine ⟨?_, ?_⟩
+      · simp [ih'.1, upgradeInTx, he]
+      · intro c hc
+        rcases List.mem_cons.mp hc with rfl | hc
+        · simp [upgradeInTx, he]
+        · exact ih'.2 c hc
+
+/-- … and if all succeed, each component ends exactly as if upgraded alone (each at its own latest version). -/
+theorem C19_many_ok_in_tx (comps : List (DB × List Version)) (fails : Nat → Bool)
+    (h : (upgradeManyInTx comps fails).2 = none) :
+    (upgradeManyInTx comps fails).1 = comps.map (fun c => (upgradeInTx c.1 c.2 fails false).1) ∧
+    ∀ c ∈ comps, (upgradeInTx c.1 c.2 fails false).2 = none := by
+  unfold upgradeManyInTx at h ⊢
+  rcases hr : upgradeManyLoop fails comps with ⟨dbs, e⟩
+  cases e with
+  | some e => simp [hr] at h
+  | none =>
+    have := upgradeManyLoop_ok fails comps (by rw [hr])
+    rw [hr] at this
+    simpa using this
+
+example : (upgradeManyInTx [(⟨1, []⟩, [⟨1, none⟩, ⟨2, some 20⟩]), (⟨10, []⟩, [⟨9, some 90⟩])] (fun _ => false)).2
+    = some .reversion := by decide
+
 /-! ### Non-vacuity: concrete tables meeting the hypotheses -/
 
 def exTable : List Version := [⟨3, some 30⟩, ⟨1, some 10⟩, ⟨2, none⟩, ⟨4, some 40⟩]
